@@ -5,9 +5,9 @@ from scoda.misc.util import get_default_note_values
 
 META = {
     "bounds": {
-        "quick": "value lists {[6,12,24],[24,12,6],[4,6,12],[12],default(9 values)} x extension on/off; shapes: 1 note, 2 notes "
+        "quick": "value lists {[6,12,24],[24,12,6],[4,6,12],[12],[6,48],default(9 values)} x extension on/off; shapes: 1 note, 2 notes "
                  "back to back on one (channel,pitch) with symbolic gap >= 0, 2 notes with symbolic channel/pitch (same pitch on two "
-                 "channels reachable), + one key-signature event; waits (durations and gaps) 1..30 (default list: 1..40, 1-2 notes)",
+                 "channels reachable), + one key-signature event; waits (durations and gaps) 1..30 (default list: 1..40, 1-2 notes); input given as relative messages or as absolute messages inserted with the later note first",
         "thorough": "as quick plus 3 notes back to back (small lists), waits 1..40, default list with 2 symbolic notes + event",
     },
     "outside_claim": ["more than 3 notes", "value lists other than the five listed", "unclosed notes (standard_length imputation)"],
@@ -15,7 +15,7 @@ META = {
               "find_minimal_distance replaced by an ite-merged summary translated from its current source (validated at start-up and by per-path cross-validation)"],
 }
 
-LISTS = {"asc": [6, 12, 24], "desc": [24, 12, 6], "fine": [4, 6, 12], "one": [12], "default": None}
+LISTS = {"gap": [6, 48], "asc": [6, 12, 24], "desc": [24, 12, 6], "fine": [4, 6, 12], "one": [12], "default": None}
 SHAPES = {
     "n1": ["W", ("ON", 0), "W", ("OFF", 0), "W"],
     "n1b": [("ON", 0), "W", ("OFF", 0)],
@@ -27,7 +27,7 @@ SHAPES = {
 FREE = {"n2free"}
 
 
-def q_qnl(shape, lname, noext, wmax):
+def q_qnl(shape, lname, noext, wmax, insertion="relative"):
     values = LISTS[lname]
 
     def fn(ctx):
@@ -37,7 +37,19 @@ def q_qnl(shape, lname, noext, wmax):
         # zero-length waits are legal gaps; drop them from the message list so the input stays canonical
         b.msgs = [m for m in b.msgs if not (m.message_type == WAIT and isinstance(m.time, int) and m.time == 0)]
         ctx.assume(distinct_keys_or_disjoint(ctx, b.notes))
-        seq = rel_sequence(b.msgs)
+        if insertion == "relative":
+            seq = rel_sequence(b.msgs)
+        else:
+            # absolute messages added through the public API with the LATER note first (ties keep insertion order)
+            ms = []
+            for n in reversed(b.notes):
+                ms.append(on(n.ch, n.pitch, n.vel, time=n.start))
+                ms.append(off(n.ch, n.pitch, time=n.end))
+            for e in b.events:
+                m_ = e.m.copy()
+                m_.time = e.t
+                ms.append(m_)
+            seq = abs_sequence(ms)
         if values is None:
             seq.quantise_note_lengths(do_not_extend=noext)
         else:
@@ -91,7 +103,7 @@ def q_qnl(shape, lname, noext, wmax):
         return [obs_events(ea, da)]
     cl = ["paired", "durations_allowed", "notes_are_input_notes", "no_duplicates", "no_overlap", "removed_iff_nothing_fits",
           "closest_fitting_value", "other_events_untouched"] + (["never_longer"] if noext else [])
-    return Query(f"{shape}/{lname}/{'noext' if noext else 'ext'}/w{wmax}", fn, cl,
+    return Query(f"{shape}/{lname}/{'noext' if noext else 'ext'}/w{wmax}{'/late-first' if insertion != 'relative' else ''}", fn, cl,
                  desc=f"quantise_note_lengths({values if values else 'default'}, do_not_extend={noext}) on shape {shape}")
 
 
@@ -105,6 +117,9 @@ def queries(tier, seed):
         for noext in (False, True):
             qs.append(q_qnl("n1", "default", noext, 40))
             qs.append(q_qnl("n2same", "default", noext, 20))
+            qs.append(q_qnl("n2same", "gap", noext, 50))
+            qs.append(q_qnl("n2same", "desc", noext, 30, insertion="late-first"))
+            qs.append(q_qnl("n2same", "asc", noext, 30, insertion="late-first"))
     else:
         for ln in ("asc", "desc", "fine", "one"):
             for noext in (False, True):
@@ -115,4 +130,9 @@ def queries(tier, seed):
             qs.append(q_qnl("n2same", "default", noext, 40))
             qs.append(q_qnl("n2ev", "default", noext, 30))
             qs.append(q_qnl("n2free", "default", noext, 24))
+            qs.append(q_qnl("n2same", "gap", noext, 60))
+            qs.append(q_qnl("n3same", "gap", noext, 30))
+            for ln in ("asc", "desc", "fine"):
+                qs.append(q_qnl("n2same", ln, noext, 40, insertion="late-first"))
+                qs.append(q_qnl("n3same", ln, noext, 20, insertion="late-first"))
     return qs
